@@ -79,6 +79,161 @@ theorem mapTaint_sound (S : Strategy) (hS : S ≠ .intersect) (sz : KeySizes) {a
     readKey S taintDom (taintTop (sz k)) ((mapMerge S taintDom a b).get k) c :=
   mapMerge_sound (fun k => taintDom_laws (sz k)) S (fun h => absurd h hS) ha hb k c h
 
+/-! ### interval instances (1 to 8 bytes, see `ivDom_laws_partial`) -/
+
+open CweModel.Itv in
+/-- **C03-data-interval.** `DataDomain<IntervalDomain>` (the value type of the pointer inference) -/
+theorem dataIv_laws_partial (s : Nat) (hs1 : 1 ≤ s) (hs8 : s ≤ 8) :
+    Laws (dataDom ivDom) (DataDom.WF (ivWF (8 * s)) s) (fun _ => True) :=
+  dataDom_laws (ivDom_laws_partial s hs1 hs8) s
+
+open CweModel.Itv in
+/-- **C03-map-interval (law 1).** maps into `IntervalDomain`, every strategy; `sz k` is the byte
+size of the values at key `k` -/
+theorem mapIv_sound_partial (S : Strategy) (sz : KeySizes) (hsz : ∀ k, 1 ≤ sz k ∧ sz k ≤ 8)
+    {a b : AList IntervalDomain} (ha : MapWF (fun k => ivWF (8 * sz k)) a)
+    (hb : MapWF (fun k => ivWF (8 * sz k)) b) (k : Int) (x : Int)
+    (h : readKey S ivDom (InRange (8 * sz k)) (a.get k) x ∨
+         readKey S ivDom (InRange (8 * sz k)) (b.get k) x) :
+    readKey S ivDom (InRange (8 * sz k)) ((mapMerge S ivDom a b).get k) x :=
+  mapMerge_sound (fun k => ivDom_laws_partial (sz k) (hsz k).1 (hsz k).2) S
+    (fun _ k v hv c hc => ivTop_max (8 * sz k) v hv c hc) ha hb k x h
+
+open CweModel.Itv in
+/-- **C03-map-interval (law 2).** -/
+theorem mapIv_absorb_merged_partial (S : Strategy) (sz : KeySizes) (hsz : ∀ k, 1 ≤ sz k ∧ sz k ≤ 8)
+    {a b : AList IntervalDomain} (ha : MapWF (fun k => ivWF (8 * sz k)) a)
+    (hb : MapWF (fun k => ivWF (8 * sz k)) b) (k : Int) (x : Int) :
+    readKey S ivDom (InRange (8 * sz k)) ((mapMerge S ivDom (mapMerge S ivDom a b) b).get k) x
+      ↔ readKey S ivDom (InRange (8 * sz k)) ((mapMerge S ivDom a b).get k) x :=
+  mapMerge_absorb_merged (fun k => ivDom_laws_partial (sz k) (hsz k).1 (hsz k).2) S
+    (fun _ k v hv c hc => ivTop_max (8 * sz k) v hv c hc) ha hb k x
+
+/-! ### memory regions over the concrete kinds -/
+
+open CweModel.MemRegion
+
+/-- `BitvectorDomain` with its size operations -/
+def bvSized : SizedDom BvDom Bv := { bvDom with size := BvDom.bytesize, newTop := BvDom.top }
+
+theorem bvSized_laws : SizedLaws bvSized (fun _ => True) BvDom.wf bvTop where
+  laws := fun s _ => bvDom_laws s
+  size_wf := fun h => h
+  newTop_wf := fun _ _ => rfl
+  newTop_γ := fun s c => by simp [Dom.γ, bvSized, bvDom, BvDom.mem, bvTop]
+  top_max := fun {s v} hv c hc => bvTop_max s v hv c hc
+
+theorem bvSized_lawful : @LawfulValueDomain BvDom bvSized.valueDomain :=
+  @LawfulValueDomain.mk BvDom bvSized.valueDomain (fun _ => rfl) (fun _ => rfl) (fun _ => rfl)
+    (fun a b _ => by
+      show (BvDom.merge a b).bytesize = a.bytesize
+      unfold BvDom.merge; split <;> rfl)
+
+/-- **C03-memregion-bitvector (laws 1 and 2).** -/
+theorem memBv_sound {a b : Region BvDom}
+    (ha : RegionWF bvSized (fun _ => True) BvDom.wf a) (hb : RegionWF bvSized (fun _ => True) BvDom.wf b)
+    (p : Int) (s : Nat) (c : Bv)
+    (h : bvDom.γ (memGet bvSized a p s) c ∨ bvDom.γ (memGet bvSized b p s) c) :
+    bvDom.γ (memGet bvSized (memMerge bvSized a b) p s) c :=
+  memMerge_sound bvSized_laws ha hb p s trivial c h
+
+theorem memBv_absorb_merged {a b : Region BvDom}
+    (ha : RegionWF bvSized (fun _ => True) BvDom.wf a) (hb : RegionWF bvSized (fun _ => True) BvDom.wf b)
+    (p : Int) (s : Nat) (c : Bv) :
+    bvDom.γ (memGet bvSized (memMerge bvSized (memMerge bvSized a b) b) p s) c ↔
+    bvDom.γ (memGet bvSized (memMerge bvSized a b) p s) c :=
+  memMerge_absorb_merged bvSized_laws bvSized_lawful ha hb p s trivial c
+
+open CweModel.Itv in
+/-- `IntervalDomain` with its size operations (sizes in bytes) -/
+def ivSized : SizedDom IntervalDomain Int :=
+  { ivDom with size := ivBytes, newTop := fun s => IntervalDomain.newTop (8 * s) }
+
+open CweModel.Itv in
+theorem ivSized_laws_partial :
+    SizedLaws ivSized (fun s => 1 ≤ s ∧ s ≤ 8) (fun s => ivWF (8 * s)) (fun s => InRange (8 * s)) where
+  laws := fun s hs => ivDom_laws_partial s hs.1 hs.2
+  size_wf := fun {s v} h => by
+    show ivBytes v = s
+    unfold ivBytes; rw [h.2]; omega
+  newTop_wf := fun s hs =>
+    ⟨⟨Interval.wf_newTop _ (by omega), fun u h => (by cases h), fun l h => (by cases h),
+      (by show (0:Nat) < 2 ^ 64; decide)⟩, rfl⟩
+  newTop_γ := fun s c => by
+    show ivDom.γ (IntervalDomain.newTop (8 * s)) c ↔ _
+    rw [ivDom_γ]; exact Interval.mem_newTop (8 * s) c
+  top_max := fun {s v} hv c hc => ivTop_max (8 * s) v hv c hc
+
+open CweModel.Itv in
+theorem ivSized_lawful : @LawfulValueDomain IntervalDomain ivSized.valueDomain :=
+  @LawfulValueDomain.mk IntervalDomain ivSized.valueDomain
+    (fun n => by show ivBytes (IntervalDomain.newTop (8 * n)) = n; unfold ivBytes; show (8 * n + 7) / 8 = n; omega)
+    (fun n => isTop_newTop (8 * n))
+    (fun _ => rfl)
+    (fun a b _ => by
+      show ivBytes (signedMergeAndWiden a b) = ivBytes a
+      unfold ivBytes; rw [signedMergeAndWiden_w])
+
+open CweModel.Itv in
+/-- **C03-memregion-interval (laws 1 and 2, cells of 1..8 bytes).** -/
+theorem memIv_sound_partial {a b : Region IntervalDomain}
+    (ha : RegionWF ivSized (fun s => 1 ≤ s ∧ s ≤ 8) (fun s => ivWF (8 * s)) a)
+    (hb : RegionWF ivSized (fun s => 1 ≤ s ∧ s ≤ 8) (fun s => ivWF (8 * s)) b)
+    (p : Int) (s : Nat) (hs : 1 ≤ s ∧ s ≤ 8) (x : Int)
+    (h : ivDom.γ (memGet ivSized a p s) x ∨ ivDom.γ (memGet ivSized b p s) x) :
+    ivDom.γ (memGet ivSized (memMerge ivSized a b) p s) x :=
+  memMerge_sound ivSized_laws_partial ha hb p s hs x h
+
+open CweModel.Itv in
+theorem memIv_absorb_merged_partial {a b : Region IntervalDomain}
+    (ha : RegionWF ivSized (fun s => 1 ≤ s ∧ s ≤ 8) (fun s => ivWF (8 * s)) a)
+    (hb : RegionWF ivSized (fun s => 1 ≤ s ∧ s ≤ 8) (fun s => ivWF (8 * s)) b)
+    (p : Int) (s : Nat) (hs : 1 ≤ s ∧ s ≤ 8) (x : Int) :
+    ivDom.γ (memGet ivSized (memMerge ivSized (memMerge ivSized a b) b) p s) x ↔
+    ivDom.γ (memGet ivSized (memMerge ivSized a b) p s) x :=
+  memMerge_absorb_merged ivSized_laws_partial ivSized_lawful ha hb p s hs x
+
+/-- `DataDomain<T>` with its size operations -/
+def dataSized {T C : Type} [DecidableEq T] (D : Dom T C) : SizedDom (DataDom T) (Sym C) :=
+  { dataDom D with size := fun d => d.size, newTop := fun s => ⟨s, [], none, true⟩ }
+
+/-- regions of `DataDomain<T>` values: the laws for every size at which `T` satisfies them -/
+theorem dataSized_laws {T C : Type} [DecidableEq T] {D : Dom T C} {valid : Nat → Prop}
+    {wfT : Nat → T → Prop} {GT : Nat → C → Prop} (LT : ∀ s, valid s → Laws D (wfT s) (GT s)) :
+    SizedLaws (dataSized D) valid (fun s => DataDom.WF (wfT s) s) (fun _ _ => True) where
+  laws := fun s hs => dataDom_laws (LT s hs) s
+  size_wf := fun h => h.1
+  newTop_wf := fun s _ => ⟨rfl, fun _ _ h => (by cases h), fun _ h => (by cases h)⟩
+  newTop_γ := fun s c => by cases c <;> simp [Dom.γ, dataSized, dataDom, DataDom.mem]
+  top_max := fun _ _ _ => trivial
+
+theorem dataSized_lawful {T C : Type} [DecidableEq T] (D : Dom T C) :
+    @LawfulValueDomain (DataDom T) (dataSized D).valueDomain :=
+  @LawfulValueDomain.mk (DataDom T) (dataSized D).valueDomain (fun _ => rfl) (fun _ => rfl)
+    (fun _ => rfl) (fun _ _ _ => rfl)
+
+/-- **C03-memregion-data (laws 1 and 2).** regions of `DataDomain<T>` values, for every offset kind
+`T` satisfying the laws at the sizes `valid` -/
+theorem memData_sound {T C : Type} [DecidableEq T] {D : Dom T C} {valid : Nat → Prop}
+    {wfT : Nat → T → Prop} {GT : Nat → C → Prop} (LT : ∀ s, valid s → Laws D (wfT s) (GT s))
+    {a b : Region (DataDom T)}
+    (ha : RegionWF (dataSized D) valid (fun s => DataDom.WF (wfT s) s) a)
+    (hb : RegionWF (dataSized D) valid (fun s => DataDom.WF (wfT s) s) b)
+    (p : Int) (s : Nat) (hs : valid s) (c : Sym C)
+    (h : (dataDom D).γ (memGet (dataSized D) a p s) c ∨ (dataDom D).γ (memGet (dataSized D) b p s) c) :
+    (dataDom D).γ (memGet (dataSized D) (memMerge (dataSized D) a b) p s) c :=
+  memMerge_sound (dataSized_laws LT) ha hb p s hs c h
+
+theorem memData_absorb_merged {T C : Type} [DecidableEq T] {D : Dom T C} {valid : Nat → Prop}
+    {wfT : Nat → T → Prop} {GT : Nat → C → Prop} (LT : ∀ s, valid s → Laws D (wfT s) (GT s))
+    {a b : Region (DataDom T)}
+    (ha : RegionWF (dataSized D) valid (fun s => DataDom.WF (wfT s) s) a)
+    (hb : RegionWF (dataSized D) valid (fun s => DataDom.WF (wfT s) s) b)
+    (p : Int) (s : Nat) (hs : valid s) (c : Sym C) :
+    (dataDom D).γ (memGet (dataSized D) (memMerge (dataSized D) (memMerge (dataSized D) a b) b) p s) c ↔
+    (dataDom D).γ (memGet (dataSized D) (memMerge (dataSized D) a b) p s) c :=
+  memMerge_absorb_merged (dataSized_laws LT) (dataSized_lawful D) ha hb p s hs c
+
 /-! ### non-vacuity: the test case of `domain_map.rs::test_merge_strategies` -/
 
 def exLeft : AList (DataDom BvDom) :=
